@@ -7,7 +7,7 @@
 #include <vector>
 // The simulator's own System V x86-64 caller (independent of MIR's _MIR_get_ff_call): integer registers, SSE registers and a
 // prepared stack image; returns rax, xmm0 and (when asked) st(0).
-struct SysvRet { int64_t rax; double xmm0; long double st0; };
+struct SysvRet { int64_t rax; double xmm0; long double st0; int64_t rdx; };
 extern "C" void sim_call_sysv(void *fn, const uint64_t *iregs, const uint64_t *fregs, const uint64_t *stack, size_t nwords, SysvRet *ret, long want_ld);
 __asm__(".text\n.globl sim_call_sysv\n.type sim_call_sysv,@function\nsim_call_sysv:\n"
         "  push %rbp\n  mov %rsp, %rbp\n  push %rbx\n  push %r12\n"          /* rsp = rbp-16: 16-byte aligned */
@@ -20,12 +20,12 @@ __asm__(".text\n.globl sim_call_sysv\n.type sim_call_sysv,@function\nsim_call_sy
         "  movq 32(%rdx), %xmm4\n  movq 40(%rdx), %xmm5\n  movq 48(%rdx), %xmm6\n  movq 56(%rdx), %xmm7\n"
         "  mov 0(%r10), %rdi\n  mov 8(%r10), %rsi\n  mov 16(%r10), %rdx\n  mov 24(%r10), %rcx\n  mov 32(%r10), %r8\n  mov 40(%r10), %r9\n"
         "  mov $8, %eax\n  call *%r11\n"
-        "  mov %rax, 0(%rbx)\n  movq %xmm0, 8(%rbx)\n  test %r12, %r12\n  jz 3f\n  fstpt 16(%rbx)\n"
+        "  mov %rax, 0(%rbx)\n  movq %xmm0, 8(%rbx)\n  mov %rdx, 32(%rbx)\n  test %r12, %r12\n  jz 3f\n  fstpt 16(%rbx)\n"
         "3: lea -16(%rbp), %rsp\n  pop %r12\n  pop %rbx\n  pop %rbp\n  ret\n"
         ".size sim_call_sysv, .-sim_call_sysv\n");
 // Call `addr` as a function with parameter kinds `ps` (prog/dsl.hpp) and result kind `rt`: integer arguments from `ia`,
 // floating-point arguments 2.0, 3.0, ... in their kinds.  Returns the result converted to an integer.
-static int64_t call_typed(void *addr, const std::string &ps, char rt, const int64_t *ia) {
+static int64_t call_typed(void *addr, const std::string &ps, char rt, const int64_t *ia, int64_t *second = nullptr) {
   uint64_t iregs[6] = {0}, fregs[8] = {0}; std::vector<uint64_t> st; int ni = 0, nf = 0, ai = 0, di = 0;
   for (char c : ps) {
     const char *bf = c == 'S' ? "q" : c == 'T' ? "qq" : c == 'P' ? "dd" : c == 'M' ? "qd" : c == 'N' ? "dq" : c == 'G' ? "qqq" : c == 'Q' ? "d" : c == 'H' ? "qqqq" : nullptr;  // by-value aggregates (prog/dsl.hpp)
@@ -41,6 +41,7 @@ static int64_t call_typed(void *addr, const std::string &ps, char rt, const int6
   }
   SysvRet r; memset(&r, 0, sizeof r);
   sim_call_sysv(addr, iregs, fregs, st.data(), st.size(), &r, rt == 'l');
+  if (second) *second = r.rdx;
   if (rt == 'd') return (int64_t) r.xmm0;
   if (rt == 'f') { float f; memcpy(&f, &r.xmm0, 4); return (int64_t) f; }
   if (rt == 'l') return (int64_t) r.st0;
